@@ -68,6 +68,16 @@ def descendants(lines, root):
     return out
 
 
+def _scalar(a):
+    ts = terms_of(a)
+    return diff.weighted_sum(ts, [tm.const(1)] * len(ts))
+
+
+def graph_only(line):
+    """statements that act on the graph only (the NumPy twin has nothing to do)"""
+    return any(x in line for x in (".backward(", ".clear_graph(", ".null_grad("))
+
+
 def _uids(a):
     return tuple(t.uid for t in terms_of(a))
 
@@ -81,8 +91,10 @@ def twin_run(S, lines, cut=None):
         A[cut[0]][...] = cut[2].reshape(A[cut[0]].shape)
     hist = []
     fam = []
+    names = getattr(S, "ALL_NAMES", vp.TENSOR_NAMES + LEAVES)
     for i, ln in enumerate(lines):
-        vp.run_line(ln, A, twin=True)
+        if not graph_only(ln):
+            vp.run_line(ln, A, twin=True)
         f = {}
         if ".shape =" in ln:
             # a view's gradient is by definition the view of its base's gradient (C06), so versions are per memory
@@ -90,19 +102,19 @@ def twin_run(S, lines, cut=None):
             # .shape to a view changes no version
             tg = A[vp._target_name(ln)]
             if vp.ultimate(tg) is tg:
-                for n in vp.TENSOR_NAMES + LEAVES:
+                for n in names:
                     if n in A and isinstance(A[n], np.ndarray):
                         f[n] = bool(np.shares_memory(tg, A[n]))
         elif vp.is_inplace(ln):
             tg = A[vp._target_name(ln)]
-            for n in vp.TENSOR_NAMES + LEAVES:
+            for n in names:
                 if n in A and isinstance(A[n], np.ndarray):
                     f[n] = bool(np.shares_memory(tg, A[n]))
         fam.append(f)
         if cut is not None and cut[1] == i:
             before = terms_of(A[cut[0]])
             A[cut[0]][...] = cut[2].reshape(A[cut[0]].shape)
-        hist.append({n: _uids(A[n]) for n in vp.TENSOR_NAMES + LEAVES if n in A and isinstance(A[n], np.ndarray)})
+        hist.append({n: _uids(A[n]) for n in names if n in A and isinstance(A[n], np.ndarray)})
     A["__fam__"] = fam
     return A, hist, before
 
@@ -119,21 +131,32 @@ def last_change(hist, name):
     return idx
 
 
-def run_program(mg, base, lines, res):
+def run_program(mg, base, lines, res, make_setup=None, invalid_backprop_ok=False, check_names=None):
     engine = eng_mod.Engine(skip_ties=True)
     engine.reset_fn = lib.reset_state
-    shape = vp.BASES[base]
+    if make_setup is None:
+        shape = vp.BASES[base]
+        make_setup = lambda: vp.Setup(shape, mg)
 
     def body():
-        S = vp.Setup(shape, mg)
+        S = make_setup()
+        names = getattr(S, "ALL_NAMES", vp.TENSOR_NAMES + LEAVES)
         T = S.env_mg()
+        Lterm = None
         for ln in lines:
             vp.run_line(ln, T)
+            if ln.startswith("L = "):
+                Lt = terms_of(T["L"].data)  # recorded when L is created
+                Lterm = diff.weighted_sum(Lt, [tm.const(1)] * len(Lt))
         L = T["L"]
-        Lterm = Sym.lift(L.data)
-        L.backward()
+        try:
+            L.backward()
+        except mg.errors.InvalidBackprop:
+            if invalid_backprop_ok:
+                return S, None, Lterm
+            raise
         grads = {}
-        for n in vp.TENSOR_NAMES + LEAVES:
+        for n in (check_names or names):
             if n in T and isinstance(T[n], mg.Tensor):
                 grads[n] = (T[n].grad, T[n].shape, T[n].constant)
         return S, grads, Lterm
@@ -143,8 +166,11 @@ def run_program(mg, base, lines, res):
         if p.exc is not None:
             return ("exc", "%s: %s" % (type(p.exc).__name__, p.exc))
         S, grads, Lterm = p.out
+        if grads is None:
+            res["invalid_backprop"] = res.get("invalid_backprop", 0) + 1
+            continue
         A, hist, _ = twin_run(S, lines)
-        Ltwin = Sym.lift(A["L"])
+        Ltwin = _scalar(A["L"])
         conds = list(p.pc) + list(p.dom)
         # forward value of L agrees with the twin
         prob = query.Problem(conds)
@@ -152,7 +178,7 @@ def run_program(mg, base, lines, res):
         res[r.verdict] += 1
         if r.verdict == "sat":
             return ("value", "L differs from the NumPy twin")
-        init = {n: _uids(S.env_np()[n]) for n in ("t",) + LEAVES}
+        init = {n: _uids(S.env_np()[n]) for n in getattr(S, "INIT_NAMES", ("t",) + LEAVES)}
         fam = A["__fam__"]
         for n, (g, shp, const) in grads.items():
             if const:
@@ -170,7 +196,7 @@ def run_program(mg, base, lines, res):
                     idx = i
             cutarr = symarr("cut_" + n, shp)
             A2, _, before = twin_run(S, lines, cut=(n, idx, cutarr))
-            Lcut = Sym.lift(A2["L"])
+            Lcut = _scalar(A2["L"])
             subst = {}
             for cv, val in zip(terms_of(cutarr), before):
                 subst[cv.uid] = val
